@@ -139,22 +139,40 @@ def plans_for(stream, rng, thorough, quick_step):
     return plans
 
 
-def client_messages(blocks):
-    """client.__next__ over scripted recvfrom -> (list of canonical messages, error name | None)"""
+def client_messages(blocks, hold_open=False):
+    """client.__next__ over scripted recvfrom -> (list of canonical messages, error name | None).
+    hold_open: after the last block the connection stays up and silent (no end-of-stream to flush anything out): what has been
+    delivered by then is all there is"""
     from cpppo.server.enip import client as C, parser
     lst = socket.socket(); lst.bind(('127.0.0.1', 0)); lst.listen(1)
     port = lst.getsockname()[1]
     cl = C.client(host='127.0.0.1', port=port)
     plan = list(blocks)
     addr = ('127.0.0.1', port)
-    cl.recvfrom = lambda timeout=None: ((plan.pop(0), addr) if plan else (b'', addr))
+    idle = [0]
+    def scripted(timeout=None):
+        if plan:
+            return plan.pop(0), addr
+        if hold_open:
+            idle[0] += 1
+            return None, addr
+        return b'', addr
+    cl.recvfrom = scripted
     msgs, err = [], None
     try:
         cl.frame.__enter__()
         try:
+            if hold_open:
+                # the way every user of the client waits for a reply: await_response re-enters the parser only when the socket is readable
+                cl.readable = lambda timeout=None: bool(plan)
             for _ in range(20000):
                 try:
-                    r = next(cl)
+                    if hold_open:
+                        r, _ela = C.await_response(cl, timeout=0.01)
+                        if r is None or not r:
+                            break
+                    else:
+                        r = next(cl)
                 except StopIteration:
                     break
                 except Exception as e:
@@ -163,6 +181,8 @@ def client_messages(blocks):
                 if r is not None:
                     r.pop('peer', None)
                     msgs.append(parser.enip_format(r, sort_keys=True))
+                elif idle[0] >= 3:
+                    break
         finally:
             cl.frame.__exit__(None, None, None)
     finally:
@@ -357,6 +377,26 @@ def run(ctx):
                 ndis += 1
                 first = first or dict(part='client end-of-stream', truncated_at=n, error=err, unfinished=mrest.hex())
 
+    # ---- header-only reply frames (declared length 0: an error status that keeps the session open) among ordinary ones, the connection held
+    # open and silent after the last byte: every complete frame is a message as soon as its last byte is in, whatever the cut
+    if reply_streams:
+        normal = reply_streams[0]
+        empty = lambda st, cx: struct.pack('<HHII8sI', 0x6F, 0, 0x1234, st, cx, 0)
+        for frames in ([normal[0], empty(8, b'hdronly1'), normal[-1]], [empty(3, b'hdronly2')], [normal[0], normal[-1], empty(0x65, b'hdronly3')],
+                       [empty(8, b'a'), empty(8, b'b'), normal[-1], empty(1, b'c')]):
+            stream = b''.join(frames)
+            whole, werr = client_messages(list(frames), hold_open=True)
+            if werr or len(whole) != len(frames):
+                bad(dict(frames=[f.hex() for f in frames], messages=len(whole), error=werr),
+                    'with the connection held open, %d complete reply frames (some of them header-only) were delivered as %d messages' % (len(frames), len(whole)))
+                continue
+            plans = [('whole', [stream]), ('bytes', [stream[i:i + 1] for i in range(len(stream))])] + [('split@%d' % k, [stream[:k], stream[k:]]) for k in range(1, len(stream), 5 if not ctx.thorough else 1)]
+            for pname, blocks in plans:
+                ncl += 1
+                msgs, err = client_messages(blocks, hold_open=True)
+                if msgs != whole or err:
+                    bad(dict(plan=pname, frames=[f.hex() for f in frames], messages=len(msgs), expected=len(whole), error=err),
+                        'the messages the client parses depend on how the reply stream was cut into received blocks (connection held open)'); break
     # ---- engine interpreter on the dumped enip_machine graph
     from cpppo.server.enip import parser
     m = parser.enip_machine(terminal=True)
